@@ -49,7 +49,10 @@ func DecodeNTPSuboptions(b []byte) ([]*Node, Verdict, string) {
 
 // DecodeNames exposes the RFC 1035 name-list reader used for options 24, 39
 // and 56/3.
-func DecodeNames(b []byte) ([]string, Verdict, string) { return nameList(b, true) }
+func DecodeNames(b []byte) ([]string, Verdict, string) {
+	n, v, why, _ := nameList(b, true)
+	return n, v, why
+}
 
 const (
 	tableTop    = iota // RFC 8415 option space
@@ -58,6 +61,30 @@ const (
 )
 
 type dec struct{ build bool }
+
+// soften raises an Accept verdict to MayReject with the given reason.
+func soften(v Verdict, why, reason string) (Verdict, string) {
+	if v == Accept {
+		return MayReject, reason
+	}
+	return v, why
+}
+
+// countCode reports how many options of a well-framed area carry the code.
+func countCode(b []byte, code uint16) int {
+	n := 0
+	for len(b) >= 4 {
+		l := int(u16(b[2:]))
+		if u16(b) == code {
+			n++
+		}
+		if 4+l > len(b) {
+			break
+		}
+		b = b[4+l:]
+	}
+	return n
+}
 
 func u16(b []byte) uint16 { return uint16(b[0])<<8 | uint16(b[1]) }
 func u32(b []byte) uint64 {
@@ -97,6 +124,10 @@ func (d *dec) message(b []byte) (*Msg, Verdict, string) {
 	opts, v, why := d.options(rest, tableTop)
 	if !v.HasTree() {
 		return nil, v, why
+	}
+	if (t == 12 || t == 13) && countCode(rest, CodeRelayMsg) == 0 {
+		// RFC 8415 §9.1 / §21.10: a relay message carries the relayed message in a Relay Message option
+		v, why = soften(v, why, WhyRelayNoMsg)
 	}
 	if d.build {
 		m.Options = opts
@@ -244,6 +275,9 @@ func (d *dec) option(code uint16, p []byte, table int) (*Node, Verdict, string) 
 		if d.build {
 			n.Fields = []Field{{"Codes", u16list(p)}}
 		}
+		if len(p) == 0 {
+			return n, MayReject, WhyOROEmpty
+		}
 		return n, Accept, ""
 
 	case CodeElapsed:
@@ -285,13 +319,16 @@ func (d *dec) option(code uint16, p []byte, table int) (*Node, Verdict, string) 
 		if len(p) == 0 {
 			return nil, Reject, "user-class: no user class data instance"
 		}
-		items, ok := d.lenItems(p)
+		items, ok, zero := d.lenItems(p)
 		if !ok {
 			return nil, Reject, "user-class: length-prefixed items do not tile the option"
 		}
 		n := d.node(code, names[code], p)
 		if d.build {
 			n.Fields = []Field{{"Items", items}}
+		}
+		if zero {
+			return n, MayReject, WhyUserClassZeroItem
 		}
 		return n, Accept, ""
 
@@ -303,13 +340,16 @@ func (d *dec) option(code uint16, p []byte, table int) (*Node, Verdict, string) 
 		if len(p) == 4 {
 			return nil, Reject, "vendor-class: no vendor class data item"
 		}
-		items, ok := d.lenItems(p[4:])
+		items, ok, zero := d.lenItems(p[4:])
 		if !ok {
 			return nil, Reject, "vendor-class: length-prefixed items do not tile the option"
 		}
 		n := d.node(code, names[code], p)
 		if d.build {
 			n.Fields = []Field{{"Enterprise", u32(p)}, {"Items", items}}
+		}
+		if zero {
+			return n, MayReject, WhyVendorClassZeroItem
 		}
 		return n, Accept, ""
 
@@ -326,6 +366,9 @@ func (d *dec) option(code uint16, p []byte, table int) (*Node, Verdict, string) 
 		if d.build {
 			n.Fields = []Field{{"Enterprise", u32(p)}}
 			n.Children = ch
+		}
+		if len(p) == 4 {
+			return n, MayReject, WhyVendorOptsEmpty
 		}
 		return n, Accept, ""
 
@@ -349,11 +392,15 @@ func (d *dec) option(code uint16, p []byte, table int) (*Node, Verdict, string) 
 		if d.build {
 			n.Fields = []Field{{"Addrs", cp(p)}}
 		}
+		if len(p) == 0 && code == CodeDNS {
+			// option 88 may be empty by RFC 7341 §7.2 ("Minimal length of this option is 0")
+			return n, MayReject, WhyDNSEmpty
+		}
 		return n, Accept, ""
 
 	case CodeDomainList:
 		// RFC 3646 §4: list of domain names, RFC 1035 §3.1 encoding
-		nm, v, why := nameList(p, d.build)
+		nm, v, why, info := nameList(p, d.build)
 		if !v.HasTree() {
 			if v == Reject {
 				return nil, v, "domain-list: " + why[len("name: "):]
@@ -363,6 +410,13 @@ func (d *dec) option(code uint16, p []byte, table int) (*Node, Verdict, string) 
 		n := d.node(code, names[code], p)
 		if d.build {
 			n.Fields = []Field{{"Names", nm}}
+		}
+		if info.count == 0 {
+			v, why = soften(v, why, WhyDomainListEmpty)
+		}
+		if info.partial {
+			// RFC 3646 §4: each name is a complete RFC 1035 §3.1 name; only RFC 4704 defines a partial name
+			v, why = soften(v, why, WhyNamePartial)
 		}
 		return n, v, why
 
@@ -393,7 +447,7 @@ func (d *dec) option(code uint16, p []byte, table int) (*Node, Verdict, string) 
 		if len(p) < 1 {
 			return nil, Reject, "FQDN: shorter than 1 octet"
 		}
-		nm, v, why := nameList(p[1:], d.build)
+		nm, v, why, info := nameList(p[1:], d.build)
 		if !v.HasTree() {
 			if v == Reject {
 				return nil, v, "FQDN: " + why[len("name: "):]
@@ -403,6 +457,10 @@ func (d *dec) option(code uint16, p []byte, table int) (*Node, Verdict, string) 
 		n := d.node(code, names[code], p)
 		if d.build {
 			n.Fields = []Field{{"Flags", uint64(p[0])}, {"Names", nm}}
+		}
+		if info.count > 1 {
+			// RFC 4704 §4: the Domain Name field holds one (possibly partial, possibly empty) name
+			v, why = soften(v, why, WhyNameMultiple)
 		}
 		return n, v, why
 
@@ -419,6 +477,10 @@ func (d *dec) option(code uint16, p []byte, table int) (*Node, Verdict, string) 
 		if d.build {
 			n.Children = ch
 		}
+		if v.HasTree() && countCode(p, 1)+countCode(p, 2)+countCode(p, 3) != 1 {
+			// RFC 5908 §4: "This option MUST include one, and only one, time source suboption"
+			v, why = soften(v, why, WhyNTPSourceCount)
+		}
 		return n, v, why
 
 	case CodeBootURL:
@@ -431,13 +493,19 @@ func (d *dec) option(code uint16, p []byte, table int) (*Node, Verdict, string) 
 
 	case CodeBootParam:
 		// RFC 5970 §3.2: (param-len:u16 parameter[len])*
-		items, ok := d.lenItems(p)
+		items, ok, zero := d.lenItems(p)
 		if !ok {
 			return nil, Reject, "bootfile-param: length-prefixed items do not tile the option"
 		}
 		n := d.node(code, names[code], p)
 		if d.build {
 			n.Fields = []Field{{"Params", items}}
+		}
+		if len(p) == 0 {
+			return n, MayReject, WhyBootParamEmpty
+		}
+		if zero {
+			return n, MayReject, WhyBootParamZeroItem
 		}
 		return n, Accept, ""
 
@@ -487,12 +555,23 @@ func (d *dec) option(code uint16, p []byte, table int) (*Node, Verdict, string) 
 		if d.build {
 			n.Fields, n.Children = V4Tree(pk)
 		}
+		// shapes that only v4ref's own leniencies accept (RFC 2131 §2/§4.1): no End option at
+		// all, non-zero octets after End, hlen beyond the 16-octet chaddr field
+		if pk.EndAt < 0 || pk.HLen > 16 || !allZero(p[pk.EndAt+1:]) {
+			return n, MayReject, WhyV4Lenient
+		}
 		return n, Accept, ""
 
 	case Code4RD:
 		// RFC 7600 §4.9: encapsulated options
 		n := d.node(code, names[code], p)
-		return d.container(n, p, 0)
+		n, v, why := d.container(n, p, 0)
+		if v.HasTree() && (countCode(p, Code4RDMap) == 0 || countCode(p, Code4RDNonMap) > 1) {
+			// RFC 7600 §4.9: "at least one encapsulated OPTION_4RD_MAP_RULE option and a maximum
+			// of one encapsulated OPTION_4RD_NON_MAP_RULE option"
+			v, why = soften(v, why, Why4RDRuleCount)
+		}
+		return n, v, why
 
 	case Code4RDMap:
 		// RFC 7600 §4.9: prefix4-len prefix6-len ea-len W|reserved rule-ipv4-prefix[4] rule-ipv6-prefix[16]; option-len 24
@@ -559,7 +638,7 @@ func (d *dec) ntpSub(code uint16, p []byte) (*Node, Verdict, string) {
 		}
 		return n, Accept, ""
 	case 3:
-		nm, v, why := nameList(p, d.build)
+		nm, v, why, info := nameList(p, d.build)
 		if !v.HasTree() {
 			if v == Reject {
 				return nil, v, "NTP: server FQDN " + why[len("name: "):]
@@ -569,6 +648,13 @@ func (d *dec) ntpSub(code uint16, p []byte) (*Node, Verdict, string) {
 		n := d.node(code, NameNTPSrvFQDN, p)
 		if d.build {
 			n.Fields = []Field{{"Names", nm}}
+		}
+		// RFC 5908 §4.3: one fully qualified name, RFC 1035 §3.1 encoding
+		if info.count != 1 {
+			v, why = soften(v, why, WhyNameMultiple)
+		}
+		if info.partial {
+			v, why = soften(v, why, WhyNamePartial)
 		}
 		return n, v, why
 	}
@@ -628,29 +714,47 @@ func (d *dec) duid(code uint16, p []byte) (*Node, Verdict, string) {
 	if d.build {
 		n.Fields = f
 	}
+	// RFC 8415 §11.1: "The length of the DUID (not including the type code) is at least 1
+	// octet and at most 128 octets"; §11.2-11.4: the link-layer address / identifier is the
+	// point of the DUID, an empty one identifies nothing
+	variable := len(r)
+	switch t {
+	case 1:
+		variable = len(r) - 6
+	case 2:
+		variable = len(r) - 4
+	case 3:
+		variable = len(r) - 2
+	}
+	if len(r) > 128 || variable == 0 {
+		return n, MayReject, WhyDUIDLength
+	}
 	return n, Accept, ""
 }
 
 // lenItems reads (len:u16 data[len])* which must tile p exactly.
-func (d *dec) lenItems(p []byte) ([]string, bool) {
+func (d *dec) lenItems(p []byte) (items []string, ok bool, zeroItem bool) {
 	var out []string
 	if d.build {
 		out = []string{}
 	}
 	for len(p) > 0 {
 		if len(p) < 2 {
-			return nil, false
+			return nil, false, false
 		}
 		l := int(u16(p))
 		if 2+l > len(p) {
-			return nil, false
+			return nil, false, false
+		}
+		if l == 0 {
+			zeroItem = true
 		}
 		if d.build {
 			out = append(out, string(p[2:2+l]))
 		}
 		p = p[2+l:]
 	}
-	return out, true
+	return out, true, zeroItem
 }
 
 func u16list(p []byte) []uint16 {
